@@ -103,7 +103,8 @@ def walk_tasks(v):
             yield from walk_tasks(x)
 
 
-def _die(sig):
+def _die(sig, name):
+    trace(f'K {name}')
     if os.environ.get('VERIF_INPROC') == '1':
         raise SimulatedDeath(str(sig))
     os.kill(os.getpid(), sig)
@@ -124,18 +125,27 @@ def _act(self, mode: str):
     if mode == 'baseexc':
         raise CustomBase(f'base {self.name}')
     if mode == 'kill9':
-        _die(signal.SIGKILL)
+        _die(signal.SIGKILL, self.name)
     if mode == 'kill15':
-        _die(signal.SIGTERM)
+        _die(signal.SIGTERM, self.name)
     if mode == 'unpicklable':
         return
     raise RuntimeError(f'harness: unknown mode {mode!r}')
 
 
 def node_run(self):
+    trace(f'S {self.name} {os.getpid()} {os.getppid()} {threading.get_native_id()} {type(self).__name__}')
+    try:
+        return _node_body(self)
+    except BaseException as ex:
+        if not isinstance(ex, SimulatedDeath):
+            trace(f'X {self.name} {type(ex).__name__}')
+        raise
+
+
+def _node_body(self):
     name = self.name
     tname = type(self).__name__
-    trace(f'S {name} {os.getpid()} {os.getppid()} {threading.get_native_id()} {tname}')
     gate_wait(name)
     dep_digests = []
     if self.read:
